@@ -583,3 +583,136 @@ Proof.
         by (replace (M32 - 1 + 1) with M32 by (unfold M32; lia); rewrite N.mod_same by (unfold M32; lia); reflexivity).
       cbn [N.eqb seal]. rewrite Nnat.Nat2N.inj_succ in Hb. unfold M32 in *. lia.
 Qed.
+
+(* ------------------------------------------------------------ the proxy with
+   its serialisation (evaluator_proxy::save / load, used by search::close and
+   search::init to carry the training evaluator's cache to the next session)
+   and the shape of the histories the evolution loop produces *)
+Section ProxySessions.
+  Variable ind : Type.
+  Variable data : Type.
+  Variable sig : ind -> key.
+  Variable eva : data -> ind -> fitness.
+  Variable P : ind -> Prop.
+  Variable eva_toks : list tok.                       (* what eva_.save writes *)
+  Variable eva_load : list tok -> option (list tok).  (* eva_.load: the rest of the stream, or failure *)
+
+  Hypothesis A_hash : forall x y, P x -> P y -> sig x = sig y -> forall d, eva d x = eva d y.
+  Hypothesis sig_nonzero : forall x, P x -> sig x <> key0.
+  Hypothesis eva_roundtrip : forall r, eva_load (eva_toks ++ r) = Some r.
+
+  Inductive qev :=
+  | QEval (x : ind) | QClear | QData (d : data)
+  | QSaveLoad.     (* proxy.save(file); a NEW proxy of the same size loads the file *)
+
+  Definition qstep (s : pstate data) (e : qev) : pstate data * option fitness * bool :=
+    match e with
+    | QEval x =>
+        let '(f, _, t') := proxy_eval (ptab data s) (sig x) (eva (pdata data s) x) in
+        (mkp data t' (pdata data s), Some f, true)
+    | QClear => (mkp data (proxy_clear (ptab data s)) (pdata data s), None, true)
+    | QData d => (mkp data (ptab data s) d, None, true)
+    | QSaveLoad =>
+        let r := proxy_load eva_load (proxy_save eva_toks (ptab data s)) (fresh (tbits (ptab data s))) in
+        (mkp data (snd r) (pdata data s), None, fst r)
+    end.
+
+  (* outputs, and whether every load succeeded *)
+  Fixpoint qrun (s : pstate data) (evs : list qev) : list (option fitness) * bool :=
+    match evs with
+    | [] => ([], true)
+    | e :: r => let '(s', o, ok) := qstep s e in
+                let (os, oks) := qrun s' r in (o :: os, ok && oks)
+    end.
+
+  Fixpoint qdirect (d : data) (evs : list qev) : list (option fitness) :=
+    match evs with
+    | [] => []
+    | QEval x :: r => Some (eva d x) :: qdirect d r
+    | QData d' :: r => None :: qdirect d' r
+    | _ :: r => None :: qdirect d r
+    end.
+
+  Fixpoint qwf (dirty : bool) (evs : list qev) : Prop :=
+    match evs with
+    | [] => True
+    | QEval x :: r => dirty = false /\ P x /\ qwf false r
+    | QClear :: r => qwf false r
+    | QData _ :: r => qwf true r
+    | QSaveLoad :: r => qwf dirty r
+    end.
+
+  Definition qcache_ok (t : table) (d : data) : Prop :=
+    forall x, P x -> find t (sig x) <> [] -> find t (sig x) = eva d x.
+
+  Lemma proxy_sessions_gen : forall evs s dirty,
+    Inv (ptab data s) -> (dirty = false -> qcache_ok (ptab data s) (pdata data s)) -> qwf dirty evs ->
+    qrun s evs = (qdirect (pdata data s) evs, true).
+  Proof.
+    induction evs as [|e evs IH]; intros s dirty HI Hok Hwf; [reflexivity|].
+    destruct e as [x| |d|]; cbn [qrun qdirect qstep].
+    - cbn in Hwf. destruct Hwf as (Hd & Px & Hwf). specialize (Hok Hd).
+      unfold proxy_eval. destruct (find (ptab data s) (sig x)) eqn:Ef.
+      + rewrite (IH (mkp data (insert (ptab data s) (sig x) (eva (pdata data s) x)) (pdata data s)) false);
+          [reflexivity|apply insert_inv; exact HI| |exact Hwf].
+        intros _ y Py. cbn [ptab pdata]. rewrite insert_refines.
+        destruct (key_eqb_spec (sig y) (sig x)) as [E|E].
+        * intros _. symmetry. apply A_hash; [exact Py|exact Px|exact E].
+        * destruct (same_slot (tbits (ptab data s)) (sig y) (sig x)); [congruence|]. apply Hok. exact Py.
+      + rewrite (IH (mkp data (ptab data s) (pdata data s)) false); [|exact HI|intros _; exact Hok|exact Hwf].
+        cbn [pdata]. repeat f_equal. rewrite <- Ef. apply Hok; [exact Px|]. rewrite Ef. discriminate.
+    - cbn in Hwf.
+      rewrite (IH (mkp data (proxy_clear (ptab data s)) (pdata data s)) false);
+        [reflexivity|apply clear_inv; exact HI| |exact Hwf].
+      intros _ y Py. cbn [ptab]. unfold proxy_clear. rewrite clear_refines by exact HI. congruence.
+    - cbn in Hwf. rewrite (IH (mkp data (ptab data s) d) true); [reflexivity|exact HI|discriminate|exact Hwf].
+    - cbn in Hwf. unfold proxy_load, proxy_save. rewrite eva_roundtrip.
+      destruct (save_load_fresh (ptab data s) HI) as (t' & Hl & HI' & Hb & Hf). rewrite Hl. cbn [fst snd].
+      rewrite (IH (mkp data t' (pdata data s)) dirty); [reflexivity|exact HI'| |exact Hwf].
+      intros Hd y Py. cbn [ptab pdata]. rewrite (Hf (sig y) (sig_nonzero y Py)). apply (Hok Hd). exact Py.
+  Qed.
+
+  Lemma proxy_sessions_transparent : forall bits d evs, qwf false evs ->
+    qrun (mkp data (fresh bits) d) evs = (qdirect d evs, true).
+  Proof.
+    intros bits d evs Hwf.
+    apply (proxy_sessions_gen evs (mkp data (fresh bits) d) false); [apply fresh_inv| |exact Hwf].
+    intros _ x Px. cbn. congruence.
+  Qed.
+
+  (* the history one generation of evolution::run produces (evolution.tcc):
+       if (shake(gen)) best.fitness = eva_(best);      -- shake = the validation strategy: it changes
+                                                          the data and clears the cached evaluators
+       for every individual of the population: ... eva_(offspring) ...
+     and a whole run, closed by search::close -> proxy.save and reopened by the
+     next session's search::init -> proxy.load *)
+  Definition generation (shake : option data) (best : ind) (offspring : list ind) : list qev :=
+    (match shake with Some d => [QData d; QClear; QEval best] | None => [] end) ++ map QEval offspring.
+
+  Definition evolution_run (first : ind) (gens : list (option data * ind * list ind)) : list qev :=
+    QEval first :: flat_map (fun g => generation (fst (fst g)) (snd (fst g)) (snd g)) gens ++ [QSaveLoad].
+
+  Lemma qwf_evals : forall l r, Forall P l -> qwf false r -> qwf false (map QEval l ++ r).
+  Proof.
+    induction l as [|x l IH]; intros r Hl Hr; cbn; [exact Hr|].
+    inversion Hl; subst. split; [reflexivity|split; [assumption|apply IH; assumption]].
+  Qed.
+
+  Lemma evolution_run_wf : forall first gens,
+    P first -> Forall (fun g => P (snd (fst g)) /\ Forall P (snd g)) gens ->
+    qwf false (evolution_run first gens).
+  Proof.
+    intros first gens Pf Hg. unfold evolution_run. cbn. split; [reflexivity|split; [exact Pf|]].
+    induction Hg as [|[[sh b] offs] gens (Pb & Po) _ IH]; cbn [flat_map fst snd]; [exact I|].
+    unfold generation. rewrite <- app_assoc. cbn [fst snd].
+    destruct sh as [d|]; cbn [app qwf].
+    - split; [reflexivity|split; [exact Pb|]]. apply qwf_evals; assumption.
+    - apply qwf_evals; assumption.
+  Qed.
+
+  Lemma evolution_run_transparent : forall bits d first gens,
+    P first -> Forall (fun g => P (snd (fst g)) /\ Forall P (snd g)) gens ->
+    qrun (mkp data (fresh bits) d) (evolution_run first gens) =
+      (qdirect d (evolution_run first gens), true).
+  Proof. intros. apply proxy_sessions_transparent. apply evolution_run_wf; assumption. Qed.
+End ProxySessions.
